@@ -138,20 +138,28 @@ type writeMerge struct {
 }
 
 func (db *DB) unlockWrite(overflow bool, merged int, err error) {
+	verifYield(11)
 	for i := 0; i < merged; i++ {
+		if i > 0 {
+			verifYield(12)
+		}
+		verifEvent(9, uint64(i), uint64(merged), verifB2U(err != nil))
 		db.writeAckC <- err
 	}
 	if overflow {
 		// Pass lock to the next write (that failed to merge).
+		verifEvent(10, 0, 0, 0)
 		db.writeMergedC <- false
 	} else {
 		// Release lock.
+		verifEvent(11, 0, 0, 0)
 		<-db.writeLockC
 	}
 }
 
 // ourBatch is batch that we can modify.
 func (db *DB) writeLocked(batch, ourBatch *Batch, merge, sync bool) error {
+	verifEvent(13, uint64(batch.internalLen), verifB2U(merge), verifB2U(sync))
 	// Try to flush memdb. This method would also trying to throttle writes
 	// if it is too fast and compaction cannot catch-up.
 	mdb, mdbFree, err := db.flush(batch.internalLen)
@@ -182,11 +190,13 @@ func (db *DB) writeLocked(batch, ourBatch *Batch, merge, sync bool) error {
 
 	merge:
 		for mergeLimit > 0 {
+			verifYield(10)
 			select {
 			case incoming := <-db.writeMergeC:
 				if incoming.batch != nil {
 					// Merge batch.
 					if incoming.batch.internalLen > mergeLimit {
+						verifEvent(6, uint64(incoming.batch.internalLen), uint64(mergeLimit), 0)
 						overflow = true
 						break merge
 					}
@@ -196,6 +206,7 @@ func (db *DB) writeLocked(batch, ourBatch *Batch, merge, sync bool) error {
 					// Merge put.
 					internalLen := len(incoming.key) + len(incoming.value) + 8
 					if internalLen > mergeLimit {
+						verifEvent(6, uint64(internalLen), uint64(mergeLimit), 0)
 						overflow = true
 						break merge
 					}
@@ -211,6 +222,7 @@ func (db *DB) writeLocked(batch, ourBatch *Batch, merge, sync bool) error {
 				}
 				sync = sync || incoming.sync
 				merged++
+				verifEvent(5, uint64(merged), 0, 0)
 				db.writeMergedC <- true
 
 			default:
@@ -229,10 +241,12 @@ func (db *DB) writeLocked(batch, ourBatch *Batch, merge, sync bool) error {
 
 	// Write journal.
 	if err := db.writeJournal(batches, seq, sync); err != nil {
+		verifEvent(7, seq, uint64(batchesLen(batches)), 1)
 		db.unlockWrite(overflow, merged, err)
 		return err
 	}
 
+	verifEvent(7, seq, uint64(batchesLen(batches)), 0)
 	// Put batches.
 	for _, batch := range batches {
 		if err := batch.putMem(seq, mdb.DB); err != nil {
@@ -241,8 +255,11 @@ func (db *DB) writeLocked(batch, ourBatch *Batch, merge, sync bool) error {
 		seq += uint64(batch.Len())
 	}
 
+	verifYield(5)
 	// Incr seq number.
 	db.addSeq(uint64(batchesLen(batches)))
+	verifEvent(8, uint64(batchesLen(batches)), 0, 0)
+	verifYield(6)
 
 	// Rotate memdb if it's reach the threshold.
 	if batch.internalLen >= mdbFree {
@@ -290,13 +307,17 @@ func (db *DB) Write(batch *Batch, wo *opt.WriteOptions) error {
 	if merge {
 		select {
 		case db.writeMergeC <- writeMerge{sync: sync, batch: batch}:
+			verifEvent(3, 0, 0, 0)
 			if <-db.writeMergedC {
 				// Write is merged.
+				verifEvent(4, 0, 0, 0)
 				return <-db.writeAckC
 			}
 			// Write is not merged, the write lock is handed to us. Continue.
+			verifEvent(2, 0, 0, 0)
 		case db.writeLockC <- struct{}{}:
 			// Write lock acquired.
+			verifEvent(1, 0, 0, 0)
 		case err := <-db.compPerErrC:
 			// Compaction error.
 			return err
@@ -308,6 +329,7 @@ func (db *DB) Write(batch *Batch, wo *opt.WriteOptions) error {
 		select {
 		case db.writeLockC <- struct{}{}:
 			// Write lock acquired.
+			verifEvent(1, 0, 0, 0)
 		case err := <-db.compPerErrC:
 			// Compaction error.
 			return err
@@ -332,13 +354,17 @@ func (db *DB) putRec(kt keyType, key, value []byte, wo *opt.WriteOptions) error 
 	if merge {
 		select {
 		case db.writeMergeC <- writeMerge{sync: sync, keyType: kt, key: key, value: value}:
+			verifEvent(3, 0, 0, 0)
 			if <-db.writeMergedC {
 				// Write is merged.
+				verifEvent(4, 0, 0, 0)
 				return <-db.writeAckC
 			}
 			// Write is not merged, the write lock is handed to us. Continue.
+			verifEvent(2, 0, 0, 0)
 		case db.writeLockC <- struct{}{}:
 			// Write lock acquired.
+			verifEvent(1, 0, 0, 0)
 		case err := <-db.compPerErrC:
 			// Compaction error.
 			return err
@@ -350,6 +376,7 @@ func (db *DB) putRec(kt keyType, key, value []byte, wo *opt.WriteOptions) error 
 		select {
 		case db.writeLockC <- struct{}{}:
 			// Write lock acquired.
+			verifEvent(1, 0, 0, 0)
 		case err := <-db.compPerErrC:
 			// Compaction error.
 			return err
@@ -464,4 +491,11 @@ func (db *DB) SetReadOnly() error {
 	}
 
 	return nil
+}
+
+func verifB2U(b bool) uint64 {
+	if b {
+		return 1
+	}
+	return 0
 }
